@@ -252,3 +252,93 @@ func init() {
 	vh.RegisterReplay("C08.detect", vh.Replayer(runC08Detect))
 	vh.RegisterReplay("C08.negative", vh.Replayer(runC08Neg))
 }
+
+// ---------------------------------------------------------------- several streams open at once
+
+// Detection on one stream is independent of any other stream the program has open: stream A
+// is detected and partly read, then stream B is detected, then both are read on, alternately.
+type c08Inter struct {
+	CodecA, CodecB string
+	A, B           []vegeta.Result
+	ReadA          int // records of A decoded before B is detected
+}
+
+func runC08Inter(c c08Inter) error {
+	da, _, err := vgen.EncodeAll(vgen.CodecByName(c.CodecA), c.A)
+	if err != nil {
+		return err
+	}
+	db, _, err := vgen.EncodeAll(vgen.CodecByName(c.CodecB), c.B)
+	if err != nil {
+		return err
+	}
+	what := fmt.Sprintf("stream A (%s, %d records, %d bytes) detected and read up to record %d, then stream B (%s, %d records, %d bytes) detected, then both read on alternately", c.CodecA, len(c.A), len(da), c.ReadA, c.CodecB, len(c.B), len(db))
+	decA := vegeta.DecoderFor(&vgen.ChunkReader{Data: da, Sizes: []int{512}})
+	if decA == nil {
+		return fmt.Errorf("%s: no decoder for A", what)
+	}
+	var gotA, gotB []vegeta.Result
+	var errA, errB error
+	for i := 0; i < c.ReadA && errA == nil; i++ {
+		var r vegeta.Result
+		if errA = decA.Decode(&r); errA == nil {
+			gotA = append(gotA, r)
+		}
+	}
+	decB := vegeta.DecoderFor(&vgen.ChunkReader{Data: db, Sizes: []int{700}})
+	if decB == nil {
+		return fmt.Errorf("%s: no decoder for B", what)
+	}
+	for (errA == nil || errB == nil) && len(gotA)+len(gotB) <= len(c.A)+len(c.B)+2 {
+		if errA == nil {
+			var r vegeta.Result
+			if errA = decA.Decode(&r); errA == nil {
+				gotA = append(gotA, r)
+			}
+		}
+		if errB == nil {
+			var r vegeta.Result
+			if errB = decB.Decode(&r); errB == nil {
+				gotB = append(gotB, r)
+			}
+		}
+	}
+	if errA != io.EOF || errB != io.EOF {
+		return fmt.Errorf("%s: A ended with %v after %d records, B with %v after %d records (want io.EOF after all)", what, errA, len(gotA), errB, len(gotB))
+	}
+	if d := vgen.DiffResults(c.A, gotA); d != "" {
+		return fmt.Errorf("%s: stream A: %s", what, d)
+	}
+	if d := vgen.DiffResults(c.B, gotB); d != "" {
+		return fmt.Errorf("%s: stream B: %s", what, d)
+	}
+	return nil
+}
+
+func TestC08Interleaved(t *testing.T) {
+	vh.Check(t, 60, 2000, func(t *rapid.T) {
+		c := c08Inter{CodecA: rapid.SampledFrom([]string{"gob", "csv", "json"}).Draw(t, "codeca"), CodecB: rapid.SampledFrom([]string{"gob", "csv", "json"}).Draw(t, "codecb")}
+		body := func(l string) []byte {
+			return bytes.Repeat([]byte{rapid.Byte().Draw(t, l)}, rapid.SampledFrom([]int{0, 200, 900, 3000}).Draw(t, l+".n"))
+		}
+		c.A = vgen.Results(t, "a", 2, 30, vgen.ResultOpts{})
+		c.B = vgen.Results(t, "b", 1, 30, vgen.ResultOpts{})
+		for i := range c.A {
+			c.A[i].Attack, c.A[i].Body = "A", body(fmt.Sprintf("ab%d", i))
+		}
+		for i := range c.B {
+			c.B[i].Attack, c.B[i].Body = "B", body(fmt.Sprintf("bb%d", i))
+		}
+		c.ReadA = rapid.IntRange(0, len(c.A)).Draw(t, "reada")
+		nt := c.ReadA > 0 && c.ReadA < len(c.A)
+		sig, _ := json.Marshal(c)
+		vh.Case("C08.interleaved", fmt.Sprintf("%x", vh.Hash(string(sig))), nt, c.CodecA+"+"+c.CodecB)
+		var err error
+		vh.Guard("C08", "C08.interleaved", c, func() { err = runC08Inter(c) })
+		if err != nil {
+			vh.Fail(t, "C08", "C08.interleaved", c, err)
+		}
+	})
+}
+
+func init() { vh.RegisterReplay("C08.interleaved", vh.Replayer(runC08Inter)) }
